@@ -48,9 +48,35 @@ class Monitor(object):
         self.success = {}           # cid -> result
         self.kills = 0              # memory loss events so far
         self.restarted = set()
+        self.waiting = {}           # nid -> {request id: callback id} as last seen (its forwarded, unanswered commands)
+        self.stale_rids = {}        # nid -> request ids an earlier incarnation left unanswered when it was killed
+        self.rid_of = {}            # callback id -> (nid, request id) of the forwarded command
+        self.outside_scope = []     # records set aside: C02 is stated for schedules without restarts
         self.voters = set(static_voters or [])
         self.trigger = {}           # finding triggers seen: name -> first step
         self.stats = {'applies': 0, 'commits': 0, 'elections': 0, 'callbacks': 0, 'snap_installs': 0}
+
+    def rec_c02(self, cb, msg):
+        # Request ids of forwarded commands restart at 1 with every process: an answer meant for a request of a
+        # killed incarnation can be taken for the answer to a new request with the same id.  C02 quantifies over the
+        # schedules of C01 (no restarts), so such records are kept apart (evidence: outside_scope), not reported.
+        n, rid = self.rid_of.get(cb, (None, None))
+        if n is not None and rid in self.stale_rids.get(n, ()):
+            self.outside_scope.append(('C02', msg, self.step, 'request id %d of node %d re-used after its restart' % (rid, n)))
+            return
+        self.rec('C02', msg)
+
+    def scan_waiting(self, sim, nid):
+        o = sim.nodes.get(nid)
+        if o is None:
+            return
+        w = {}
+        for rid, cbk in g(o, 'commandsWaitingReply').items():
+            d = getattr(cbk, '__defaults__', None)
+            if d:
+                w[rid] = d[0]
+                self.rid_of.setdefault(d[0], (nid, rid))
+        self.waiting[nid] = w
 
     def rec(self, prop, msg, finding=None):
         # C01-C04 are stated "as long as no node loses its memory": after a memory-only node was killed
@@ -103,6 +129,9 @@ class Monitor(object):
                 # the process died inside the step: what it sent before dying was sent
                 n = ev[1] if k == 'tickkill' else ev[2]
                 self.kill_infos.append(dict(sim.kill_info, node=n, step=self.step))
+                self.stale_rids.setdefault(n, set()).update(self.waiting.pop(n, {}))
+                if sim.abandoned is not None:
+                    self.stale_rids[n].update(g(sim.abandoned, 'commandsWaitingReply').keys())
                 if sim.abandoned is not None:
                     self.note_acks(sim, n, sim.abandoned)
                     if self.journaled:
@@ -115,6 +144,7 @@ class Monitor(object):
             k = 'tick' if k == 'tickkill' else 'deliver'
             ev = ((k,) + tuple(ev[1:-1]))
         if k == 'kill':
+            self.stale_rids.setdefault(ev[1], set()).update(self.waiting.pop(ev[1], {}))
             if self.journaled and ev[1] in self.last_logs:
                 self.down_logs[ev[1]] = self.last_logs[ev[1]]     # what its journal file holds while it is down
             self.prev.pop(ev[1], None)
@@ -132,17 +162,22 @@ class Monitor(object):
             if self.journaled and ev[1] in self.acked:
                 self.pending_recovery.add(ev[1])
             self.restarted.add(ev[1])
+        if nid is not None:
+            prev_waiting = dict(self.waiting.get(nid, {}))
+            self.scan_waiting(sim, nid)
+            for rid, cb in prev_waiting.items():
+                self.rid_of.setdefault(cb, (nid, rid))
         # callbacks (C02)
         for cb, res, err in sim.fired:
             self.stats['callbacks'] += 1
             self.fired.setdefault(cb, []).append((res, err, self.step))
             if len(self.fired[cb]) > 1:
-                self.rec('C02', 'callback of command %d fired %d times: %r' % (cb, len(self.fired[cb]), self.fired[cb]))
+                self.rec_c02(cb, 'callback of command %d fired %d times: %r' % (cb, len(self.fired[cb]), self.fired[cb]))
             if err in ERR_NEVER_APPLIED:
                 self.must_not_apply[cb] = ERR_NEVER_APPLIED[err]
                 if cb in self.idx_of_cid:
-                    self.rec('C02', 'command %d reported %s but is applied at position %d'
-                             % (cb, ERR_NEVER_APPLIED[err], self.idx_of_cid[cb]))
+                    self.rec_c02(cb, 'command %d reported %s but is applied at position %d'
+                                 % (cb, ERR_NEVER_APPLIED[err], self.idx_of_cid[cb]))
             if err == 0:
                 self.success[cb] = res
         if nid is None or nid not in sim.nodes:
@@ -224,8 +259,8 @@ class Monitor(object):
                             self.rec('C02', 'command %d applied at two positions %d and %d' % (a, self.idx_of_cid[a], idx))
                         self.idx_of_cid.setdefault(a, idx)
                         if a in self.must_not_apply:
-                            self.rec('C02', 'command %d reported %s but is applied at position %d'
-                                     % (a, self.must_not_apply[a], idx))
+                            self.rec_c02(a, 'command %d reported %s but is applied at position %d'
+                                         % (a, self.must_not_apply[a], idx))
         # C01: the object's state equals the execution of the applied prefix
         known = all(i in self.cmd_at for i in range(2, applied + 1))
         if known:
@@ -242,13 +277,13 @@ class Monitor(object):
                     exp = self.expected_history(sim, idx)
                     want = exp.index(cb) + 1 if cb in exp else None
                     if res != want:
-                        self.rec('C02', 'command %d acknowledged SUCCESS with result %r but executing position %d returns %r'
-                                 % (cb, res, idx, want))
+                        self.rec_c02(cb, 'command %d acknowledged SUCCESS with result %r but executing position %d returns %r'
+                                     % (cb, res, idx, want))
             elif err == 0 and cb not in self.idx_of_cid and isinstance(cb, int):
                 # SUCCESS for a command that is applied nowhere (yet): the firing node applied it just now,
                 # so it must be in cmd_at unless cb is an admin/version request
                 if ('submit_cids' in rec.__dict__) and cb in rec.submit_cids:
-                    self.rec('C02', 'command %d acknowledged SUCCESS but it is not applied at any position' % cb)
+                    self.rec_c02(cb, 'command %d acknowledged SUCCESS but it is not applied at any position' % cb)
         # C03: one leader per term; a new leader holds every committed entry
         for who, old, new in sim.roles:
             if new == 2:
@@ -311,12 +346,28 @@ class Monitor(object):
             # common prefix of the old and the new log (by index and term)
             new_by_idx = dict((e[1], e) for e in log)
             old_by_idx = dict((e[1], e) for e in old)
-            wholesale = (log[0][1] > old[-1][1]) or (g(o, 'raftLastApplied') > self.prev.get(nid, (0, 0))[1] and
+            # the head of the log is only ever dropped up to a position captured at an earlier step (<= the applied
+            # index then): a first index above the previous applied index means a snapshot was installed
+            wholesale = (log[0][1] > old[-1][1]) or (log[0][1] > self.prev.get(nid, (0, 0))[1] >= 1) or (g(o, 'raftLastApplied') > self.prev.get(nid, (0, 0))[1] and
                                                       self.entry_at(log, self.prev.get(nid, (0, 0))[1] + 1) is None
                                                       and g(o, 'raftLastApplied') > old[-1][1])
             if wholesale:
                 self.shadow[nid] = set(actual)      # snapshot installed: the member set comes with it
                 self.stats['snap_installs'] += 1
+                # ... and must be the set defined by the membership commands up to the snapshot's position
+                exp = set(rec.cfg['voters'])
+                for idx in sorted(self.committed):
+                    if idx <= applied:
+                        kind, a, b = sim.cid_of_command(self.committed[idx][0])
+                        if kind == 2:
+                            if a == 1:
+                                exp.add(b)
+                            else:
+                                exp.discard(b)
+                exp.discard(nid)
+                if exp != actual and all(i in self.committed for i in range(2, applied + 1)):
+                    self.rec('C10', 'node %d installed a snapshot of position %d carrying the member set %r; the membership commands up to that position define %r'
+                             % (nid, applied, sorted(actual), sorted(exp)))
             else:
                 sh = self.shadow.get(nid, set(actual))
                 gone = [e for e in old if e[1] not in new_by_idx or new_by_idx[e[1]][2] != e[2]]
